@@ -6,6 +6,7 @@ import (
 	"flag"
 	"fmt"
 	"go/constant"
+	"go/types"
 	"golang.org/x/tools/go/ssa"
 	"os"
 	"os/exec"
@@ -319,6 +320,77 @@ func cmdCheck(args []string) int {
 		if len(samples) < 12 && !o.Smoke {
 			samples = append(samples, map[string]interface{}{"function": o.Fn, "obligation": o.Name, "kind": o.Kind, "verdict": o.Result, "solver": o.Solver, "secs": round3(o.Secs), "clause": o.Text})
 		}
+	}
+	// module-wide writer audit of representation fields
+	for _, fw := range P.CS.Writers {
+		in := false
+		for _, t := range fw.Tags {
+			if t == *prop {
+				in = true
+			}
+		}
+		if !in {
+			continue
+		}
+		nObl++
+		var offenders []string
+		for key, fn := range P.Funcs {
+			if fn == nil || fn.Pkg == nil || !inModule(fn.Pkg.Pkg) || strings.HasSuffix(P.Fset.Position(fn.Pos()).Filename, "_verif.go") {
+				continue
+			}
+			writes := false
+			for _, b := range fn.Blocks {
+				for _, ins := range b.Instrs {
+					fa, ok := ins.(*ssa.FieldAddr)
+					if !ok {
+						continue
+					}
+					st, ok := deref(fa.X.Type()).Underlying().(*types.Struct)
+					if !ok || st.Field(fa.Field).Name() != fw.Field {
+						continue
+					}
+					nt, ok := deref(fa.X.Type()).(*types.Named)
+					if !ok || nt.Obj().Name() != fw.Type || nt.Obj().Pkg() == nil || pkgKeyOf(nt.Obj().Pkg().Path()) != fw.Pkg {
+						continue
+					}
+					// a store through the field address, or the address escaping into a call / another value
+					for _, r := range *fa.Referrers() {
+						switch u := r.(type) {
+						case *ssa.Store:
+							if u.Addr == fa {
+								writes = true
+							}
+						case *ssa.UnOp, *ssa.DebugRef:
+						case *ssa.FieldAddr, *ssa.IndexAddr:
+							// address of a part: any store below it counts
+							writes = writes || storesBelow(u.(ssa.Value))
+						default:
+							writes = true
+						}
+					}
+				}
+			}
+			if !writes {
+				continue
+			}
+			ok := false
+			for _, a := range fw.Allowed {
+				if a == key || (strings.HasSuffix(a, "*") && strings.HasPrefix(key, strings.TrimSuffix(a, "*"))) {
+					ok = true
+				}
+			}
+			if !ok {
+				offenders = append(offenders, key)
+			}
+		}
+		sort.Strings(offenders)
+		if len(offenders) == 0 {
+			nDis++
+			continue
+		}
+		failed = append(failed, &Obligation{Fn: fw.Pkg, Name: "writers:" + fw.Type + "." + fw.Field, Kind: "writers", Pos: fmt.Sprintf("%s:%d", fw.File, fw.Line), Result: "changed",
+			Text:   fmt.Sprintf("only the listed functions store to %s.%s", fw.Type, fw.Field),
+			Output: "functions of the module that store to the field (or let its address escape) and are not listed: " + strings.Join(offenders, ", ")})
 	}
 	// pinned package-level strings (texts that assumed meanings are about)
 	for _, pn := range P.CS.Pins {
@@ -784,4 +856,32 @@ func cmdReplay(args []string) int {
 		fmt.Println("not reproduced: the obligation is discharged on the current tree")
 	}
 	return rc
+}
+
+// storesBelow: some store goes through an address derived from v.
+func storesBelow(v ssa.Value) bool {
+	refs := v.Referrers()
+	if refs == nil {
+		return false
+	}
+	for _, r := range *refs {
+		switch u := r.(type) {
+		case *ssa.Store:
+			if u.Addr == v {
+				return true
+			}
+		case *ssa.FieldAddr:
+			if storesBelow(u) {
+				return true
+			}
+		case *ssa.IndexAddr:
+			if storesBelow(u) {
+				return true
+			}
+		case *ssa.UnOp, *ssa.DebugRef:
+		default:
+			return true
+		}
+	}
+	return false
 }
